@@ -18,6 +18,9 @@ CLAIMED = {
  "C09": ("who-may-write table for the signer fields, must-lockset analysis of unsealCA, dominance of decrypt/load/ready-send by their preconditions, per-route sealed-gate dominance of primitive signing calls, structural check of the key-publication loop",
          "Signer family written only by reviewed writers with Signer stored last; unsealCA holds the mutex from entry to every return, tests already-unsealed before decrypting, loads only after successful decryption, signals readiness only after a successful load of a sealed server; injection requires a verified client chain; every primitive signing call reachable from a service route is dominated by the sealed gate; readiness 200 only when unsealed; publication of public keys follows every load. All paths, current source.",
          "Trusts sync.Mutex, go/ssa. Interleavings are covered only through lock discipline and single-store structure, not enumerated.", "DESIGN.md §3 C09"),
+ "C12": ("dominance of the token-minting calls by the conjunction of code/client/expiry/redirect/type facts, decision-structure classification of the client-authentication flag, shape check of the PKCE verifier, store-provenance of token fields",
+         "Both minting calls of the token endpoint are dominated on all paths by the verified code, client authentication, client==code.sub, strict expiry, equal redirect_uri and the code type; the authentication flag is true only from PKCE (secret-less client) or a non-empty secret; the PKCE verifier compares against the challenge decrypted from the same code; token/code/userinfo fields have the stated provenance (field-store analysis).",
+         "Trusts go-jose and JSON encoding. Field provenance is judged per store into the token structs in the current source.", "DESIGN.md §3 C12"),
  "C08": ("per-accessor operand binding (own user / equality / admin fact) by guard-fact dataflow followed through parameters into callers; structural check of admin predicates and cache",
          "Every profile/user-store accessor reachable from a service route has its user operand bound to the authenticated user, compared equal to it, or guarded by the administrator fact of its operation class, on every path; IsAdminUserAndU2F, IsAdminUser, the admin cache and automation-certificate minting have the required shape.",
          "Trusts go/types+go/ssa; directory content is out of scope. Operation classes (read / write / user administration) are a reviewed table keyed by handler.", "DESIGN.md §3 C08"),
